@@ -80,6 +80,10 @@ ATB = ("<= 2 existing attributes with names of <= 3 characters, number types uin
 ob("GRsetattr_mem", "C10", entry="h_GRsetattr", enforce="GRsetattr", mode="bounded", bound=ATB + "; image id", unwind=3, **AT)
 ob("GRattrinfo_mem", "C10", entry="h_GRattrinfo", enforce="GRattrinfo", mode="bounded", bound=ATB, unwind=3, **AT)
 ob("attr_reset_info", "C10", entry="h_attr_reset_info", mode="bounded", bound=ATB + "; 2 attributes, same number type", unwind=3, **AT)
+ob("GRgetattr_mem", "C10", entry="h_GRgetattr", mode="bounded", unwind=20,
+   bound=ATB + "; cache threshold 1..16 bytes (symbolic, so values below / at / above it are covered); V layer as one ghost attribute Vdata",
+   flags=["--no-malloc-may-fail"], gi_flags=["--no-malloc-may-fail"],  # allocation failure: A-ALLOC
+   **{**AT, "trusted": AT["trusted"] + ["VSattach/VSsetfields/VSread/VSdetach: one ghost attribute Vdata (byte at the ghost index), may fail"]})
 
 # ---- dfrle.c (old-style RLE of 8-bit rasters, DFTAG_RLE): NOT registered.  units/dfrle_u.c holds a bounded round trip DFCIrle -> DFCIunrle on
 # run-shaped rows (run of 0..135 equal bytes + <= 2 others), meant to decide the run-length limit that seeded change C09-m5 breaks; with
